@@ -175,20 +175,57 @@ def findClassify (tokens : List String) : Classification :=
 
 /-! ### fd -/
 
-/-- the first exec flag among `tokens[1:]` and what follows it -/
-def fdAfterExec : List String → Option (String × List String)
+/-- one `-x`/`-X` clause: the words up to `;`, and what follows it -/
+def fdClause : List String → List String × List String
+  | [] => ([], [])
+  | t :: r => if t == ";" then ([], r) else (t :: (fdClause r).1, (fdClause r).2)
+
+/-- what follows the first `x`/`X` of a cluster's letters: (the letter, the attached text) -/
+def fdClusterSplit : List Char → Option (Char × List Char)
   | [] => none
-  | t :: rest => if fd_EXEC_FLAGS.contains t then some (t, rest) else fdAfterExec rest
+  | c :: r => if c == 'x' || c == 'X' then some (c, r) else fdClusterSplit r
+
+/-- a combined or attached short form (`-Hx`, `-xrm`): more than one letter, `x` or `X` among them; the result is the
+    flag and the words the attached text contributes to the command -/
+def fdCluster (t : String) : Option (String × List String) :=
+  if sw t "-" && !sw t "--" && decide (t.length > 2) then
+    match fdClusterSplit (t.toList.drop 1) with
+    | some (c, att) => some ("-" ++ String.singleton c, if att.isEmpty then [] else [String.ofList att])
+    | none => none
+  else none
+
+/-- the `=`-joined long forms: (flag, value) -/
+def fdEqForm (t : String) : Option (String × String) :=
+  if sw t "--exec=" then some ("--exec", dropS 7 t)
+  else if sw t "--exec-batch=" then some ("--exec-batch", dropS 13 t)
+  else none
+
+def fdFinish (clauses : List String) (desc : Option String) : Classification :=
+  if clauses.isEmpty then allow (some "fd") else delegate (" ; ".intercalate clauses) desc
+
+/-- the clause loop of `classify` (`fuel` bounds the number of clauses; the caller passes the number of words) -/
+def fdLoop : Nat → List String → List String → Option String → Classification
+  | 0, _, clauses, desc => fdFinish clauses desc
+  | _, [], clauses, desc => fdFinish clauses desc
+  | f + 1, t :: rest, clauses, desc =>
+    let flagHead : Option (String × List String) :=
+      if fd_EXEC_FLAGS.contains t then some (t, [])
+      else match fdEqForm t with
+        | some (fl, v) => some (fl, [v])
+        | none => fdCluster t
+    match flagHead with
+    | some (flag, head) =>
+      let flagDesc := (lookup fd_FLAG_DISPLAY flag).getD flag
+      match head ++ (fdClause rest).1 with
+      | [] => ask ("fd " ++ flagDesc ++ " (no command)")
+      | first :: more =>
+        fdLoop f (fdClause rest).2 (clauses ++ [bashJoin (first :: more)])
+          (match desc with | some d => some d | none => some ("fd " ++ flagDesc ++ " " ++ first))
+    | none => fdLoop f rest clauses desc
 
 def fdClassify (tokens : List String) : Classification :=
   if tokens.length < 2 then allow (some "fd")
-  else match fdAfterExec (tokens.drop 1) with
-    | none => allow (some "fd")
-    | some (flag, inner) =>
-      let flagDesc := (lookup fd_FLAG_DISPLAY flag).getD flag
-      match inner with
-      | [] => ask ("fd " ++ flagDesc ++ " (no command)")
-      | first :: _ => delegate (bashJoin inner) (some ("fd " ++ flagDesc ++ " " ++ first))
+  else fdLoop tokens.length (tokens.drop 1) [] none
 
 /-! ### arch, caffeinate -/
 
@@ -287,7 +324,13 @@ def uvRunClassify (tokens : List String) : Classification :=
 
 /-! ### tar -/
 
-def tarOptionIs (t opt : String) : Bool := t == opt || sw t (opt ++ "=")
+/-- `t.split("=", 1)[0]` -/
+def beforeEq (t : String) : String := String.ofList (t.toList.takeWhile (· != '='))
+
+/-- the word spells the long option `opt`, possibly abbreviated (`--use-compress-prog=x`): its name – the text before
+    `=` – starts with `--`, is longer than that, is not `--checkpoint` itself, and is a prefix of `opt` -/
+def tarOptionIs (t opt : String) : Bool :=
+  sw (beforeEq t) "--" && decide ((beforeEq t).length > 2) && beforeEq t != "--checkpoint" && sw opt (beforeEq t)
 
 /-- `_runs_other_program`: the first word that makes tar run a program of the caller's choosing -/
 def tarRunsOther : List String → Option String
